@@ -138,7 +138,10 @@ def cover_read(F, R, I_, backend):
         m = re.search(r"\[i8; (\d+)\]", ty)
         if not m:
             continue
-        reads.setdefault((group_of(f["path"]), int(m.group(1))), []).extend(ivs)
+        N_ = int(m.group(1))
+        # an unbounded index (an unknown usize, e.g. the result of an unmodelled library call) is not evidence of coverage;
+        # a widened loop counter is clipped to the array
+        reads.setdefault((group_of(f["path"]), N_), []).extend((max(lo, 0), min(hi, N_ - 1)) for lo, hi in ivs if hi < 2**32 and lo < N_)
     n = 0
     for (grp, N), pos in sorted(needed.items()):
         if RECODER.match(grp) or not pos:
